@@ -294,6 +294,8 @@ func ruleBoundScoped(c *Ctx, only func(*Func) bool) {
 				}
 				if reason, ok := reviewedBare[key]; ok {
 					c.R.Except("R-BOUND/site", p.Pos(op.Ast), f.Name, op.Desc, reason)
+				} else if k, n := p.bufferedLocalSend(f, op.Ast); n > 0 && int64(n) <= k {
+					c.R.Hold("R-BOUND/site", p.Pos(op.Ast), f.Name, op.Desc, fmt.Sprintf("send on a local channel made with capacity %d that has %d send site(s), none repeated by a loop the channel is not created in: the buffer holds every send", k, n), false)
 				} else {
 					c.R.Violate("R-BOUND/site", p.Pos(op.Ast), f.Name, op.Desc, "bare blocking operation (no default, timer or cancellation arm) that is not in the reviewed table: it can wait forever", nil)
 				}
@@ -488,4 +490,103 @@ func (p *Prog) ctxOrigin(f *Func, e ast.Expr) string {
 		return "multiple definitions"
 	}
 	return "?"
+}
+
+// bufferedLocalSend: op is a send statement on a local channel variable that
+// is defined once by make(chan T, K) with a constant K. It returns K and the
+// number of send sites on that variable in the enclosing top-level function
+// (function literals included); n is 0 when the shape is not recognised or a
+// send site is repeated by a loop that does not also contain the make.
+func (p *Prog) bufferedLocalSend(f *Func, op ast.Node) (k int64, n int) {
+	send, ok := op.(*ast.SendStmt)
+	if !ok {
+		return 0, 0
+	}
+	info := f.Pkg.TypesInfo
+	v, ok := identObj(info, send.Chan).(*types.Var)
+	if !ok || v.IsField() || v.Parent() == nil || v.Parent() == f.Pkg.Types.Scope() {
+		return 0, 0
+	}
+	root := f
+	for root.Parent != nil {
+		root = root.Parent
+	}
+	var mk *ast.CallExpr
+	defs := 0
+	innermostLoop := func(target ast.Node) ast.Node {
+		var loop ast.Node
+		var stack []ast.Node
+		ast.Inspect(root.Body, func(x ast.Node) bool {
+			if x == nil {
+				stack = stack[:len(stack)-1]
+				return false
+			}
+			stack = append(stack, x)
+			if x == target {
+				for i := len(stack) - 1; i >= 0; i-- {
+					switch stack[i].(type) {
+					case *ast.ForStmt, *ast.RangeStmt:
+						loop = stack[i]
+						return false
+					}
+				}
+			}
+			return true
+		})
+		return loop
+	}
+	var sends []ast.Node
+	bad := false
+	ast.Inspect(root.Body, func(x ast.Node) bool {
+		switch y := x.(type) {
+		case *ast.AssignStmt:
+			for i, l := range y.Lhs {
+				if identObj(info, l) == v {
+					defs++
+					if len(y.Lhs) == len(y.Rhs) {
+						if call, ok := ast.Unparen(y.Rhs[i]).(*ast.CallExpr); ok && p.CalleeName(root, call) == "builtin.make" && len(call.Args) == 2 {
+							mk = call
+						}
+					}
+				}
+			}
+		case *ast.ValueSpec:
+			for i, nm := range y.Names {
+				if info.Defs[nm] == v {
+					defs++
+					if len(y.Values) == len(y.Names) {
+						if call, ok := ast.Unparen(y.Values[i]).(*ast.CallExpr); ok && p.CalleeName(root, call) == "builtin.make" && len(call.Args) == 2 {
+							mk = call
+						}
+					}
+				}
+			}
+		case *ast.SendStmt:
+			if identObj(info, y.Chan) == v {
+				sends = append(sends, y)
+			}
+		case *ast.CallExpr:
+			// the channel handed to something else: sends we cannot see
+			for _, a := range y.Args {
+				if identObj(info, a) == v && p.CalleeName(root, y) != "builtin.close" && p.CalleeName(root, y) != "builtin.len" && p.CalleeName(root, y) != "builtin.cap" {
+					bad = true
+				}
+			}
+		}
+		return true
+	})
+	if mk == nil || defs != 1 || bad {
+		return 0, 0
+	}
+	kk, isK := constInt(info, mk.Args[1])
+	if !isK || kk < 1 {
+		return 0, 0
+	}
+	mkLoop := innermostLoop(mk)
+	for _, sd := range sends {
+		if innermostLoop(sd) != mkLoop {
+			return 0, 0
+		}
+	}
+	return int64(kk), len(sends)
 }
